@@ -1,6 +1,7 @@
 import Pycoin.Model.Validate
 import Pycoin.Proofs.SighashFields
 import Pycoin.Props.C04
+import Pycoin.Proofs.TamperKinds
 /-!
 C06 — Validation is tamper-evident: signatures bind what their hash type commits.
 
@@ -501,17 +502,6 @@ theorem segwitPreimage_map (c : Coin) (tx : Tx) (us : List (Option TxOut)) (e : 
   simp only [h1, h2, h3, h4]
 /-! ## the frame direction: a change outside the commitment leaves the verdict as it was -/
 
-/-- the script code a closure digests: the witness closure and Bitcoin Cash take the script as it stands, the others
-remove the signature pushes first -/
-def closureCode (c : Coin) (q : Query) : Except Sighash.Err Bytes :=
-  if q.witness || !closureDeletesSigs c then .ok q.script else deleteSignatures q.script q.sigs
-
-/-- from the bytes a signature commits to, to the number handed to `generator.verify` -/
-def digestOf (c : Coin) (witness : Bool) : Except Sighash.Err (Option Bytes) → Except Sighash.Err Nat
-  | .error e => .error e
-  | .ok none => .ok Gen.Sighash.singleBugValue
-  | .ok (some p) => .ok (beNat (sha (if witness || requiresForkId c then segwitSingleSha c else legacySingleSha c) p))
-
 /-- C06.oracle_reads_preimage_only: what a closure of `check_solution` answers depends on the transaction and the
 unspents **only through the committed bytes** (`preimageOf`: the legacy message, or the BIP143 message with the fork id
 folded in) -/
@@ -519,53 +509,8 @@ theorem C06_oracle_reads_preimage_only (c : Coin) (s : State) (idx : Nat) (q : Q
     oracle c s idx q =
       match closureCode c q with
       | .error e => .error e
-      | .ok code => digestOf c q.witness (preimageOf c s q.witness code idx q.ht) := by
-  unfold oracle closureCode preimageOf
-  cases hw : q.witness with
-  | true =>
-    simp only [if_true, Bool.true_or, witnessSighashF, segwitSignatureHash, digestOf]
-    split
-    · rfl
-    · cases segwitPreimage c s.tx s.us q.script idx (q.ht ||| forkId c <<< 8) <;> rfl
-  | false =>
-    simp only [Bool.false_eq_true, if_false, Bool.false_or, sighashF]
-    cases hd : closureDeletesSigs c with
-    | false =>
-      simp only [Bool.not_false, if_true, Bool.false_eq_true, if_false]
-      unfold signatureHash
-      cases hr : requiresForkId c with
-      | true =>
-        simp only [if_true, Bool.true_and, decide_eq_true_eq]
-        unfold segwitSignatureHash
-        by_cases hf : q.ht &&& Gen.Sighash.sighashForkid ≠ Gen.Sighash.sighashForkid
-        · simp [hf, digestOf]
-        · simp only [hf, if_false, decide_false, Bool.and_false, Bool.false_eq_true]
-          cases segwitPreimage c s.tx s.us q.script idx (q.ht ||| forkId c <<< 8) <;> simp [digestOf, hr]
-      | false =>
-        simp only [Bool.false_eq_true, if_false, legacySignatureHash]
-        cases Sighash.legacyPreimage c s.tx q.script idx q.ht with
-        | error e => rfl
-        | ok o => cases o <;> simp [digestOf, hr]
-    | true =>
-      simp only [Bool.not_true, Bool.false_eq_true, if_false, if_true]
-      cases deleteSignatures q.script q.sigs with
-      | error e => rfl
-      | ok code =>
-        simp only
-        unfold signatureHash
-        cases hr : requiresForkId c with
-        | true =>
-          simp only [if_true, Bool.true_and, decide_eq_true_eq]
-          unfold segwitSignatureHash
-          by_cases hf : q.ht &&& Gen.Sighash.sighashForkid ≠ Gen.Sighash.sighashForkid
-          · simp [hf, digestOf]
-          · simp only [hf, if_false, decide_false, Bool.and_false, Bool.false_eq_true]
-            cases segwitPreimage c s.tx s.us code idx (q.ht ||| forkId c <<< 8) <;> simp [digestOf, hr]
-        | false =>
-          simp only [Bool.false_eq_true, if_false, legacySignatureHash]
-          cases Sighash.legacyPreimage c s.tx code idx q.ht with
-          | error e => rfl
-          | ok o => cases o <;> simp [digestOf, hr]
+      | .ok code => digestOf c q.witness (preimageOf c s q.witness code idx q.ht) :=
+  oracle_reads_preimage_only c s idx q
 
 /-- C06.uncommitted_change_same_verdict: if two states give input `idx` the same context, have its spent output known
 in both, and the bytes committed to by every signature the interpreter may check (`Q`) are the same — which, by
@@ -738,6 +683,247 @@ theorem C06_tamper_fails_partial (H : Bytes → Bytes) (verify : Bytes → Bool)
     (hUF : ∀ d', d' ≠ H p → verify d' = false) :
     verify (H p') = false :=
   hUF (H p') (fun h => hne (hCR h.symm))
+
+/-! ## tampering, through the interpreter of the code
+
+`stdVM c` (`Model/ValidateVM.lean`) is `SolutionChecker(tx).check_solution(tx_context)` of class `c`: the model of pycoin's
+script VM (C03) run with the class's `DEFAULT_FLAGS`, its signature check being `checksig` over the closures of
+`check_solution` — key parse, lax DER parse, the digest of the bytes the closure commits to, ECDSA verification.  The theorems
+below go through `is_solution_ok` of that interpreter.  Everything structural is proved: which bytes are digested
+(`C06_oracle_reads_preimage_only`), that the digest is what ECDSA-verify gets for the key in the script (`chkOf_eq`), that a
+refused check makes `CHECKSIG` push false — NULLFAIL is not among the default flags — and the script fail, that the multisig
+loop fails when one signature verifies for no key, that the P2SH / witness wrappers compare hashes before anything else
+(`Proofs/TamperEval.lean`, `Proofs/SignReject.lean`, `C03M_verify_eq`).  Assumed, and named: `CollisionFree` of the digest
+function on the two committed byte strings, `NoForgery` of the signature for the two digests.  Not a hypothesis but a fact
+the statements need: the tampered transaction is not of the coinbase shape (then `tx_context_for_idx` hands the interpreter an
+empty puzzle script — known finding `coinbase-marker-input-valid`), and the closure answers in the tampered state (fields in
+wire range; otherwise `is_solution_ok` raises, which is not a `True` either). -/
+
+open Pycoin.Sign in
+/-- C06.valid_imp_verifies (P2PKH): `is_solution_ok` returns `True` for `<sig> <key>` against `DUP HASH160 <h> EQUALVERIFY
+CHECKSIG` only if the key hashes to `h` and the signature check — ECDSA over the digest of the bytes the closure of the
+*current* state commits to (`chkOf_eq`) — accepts the signature for that key -/
+theorem C06_valid_imp_verifies_p2pkh (c : Coin) (st : State) (idx : Nat) (sig key h : Bytes)
+    (hi : InputIs st idx (pushesOf [sig, key]) [] (p2pkhScript h)) (hlen : h.length = 20)
+    (hs2 : 2 ≤ sig.length) (hs : sig.length ≤ 75) (hk2 : 2 ≤ key.length) (hk : key.length ≤ 75)
+    (hv : isSolutionOk (stdVM c) c st idx = .ok true) :
+    Hash.hash160 key = h ∧ chkOf (oracle c st idx) sig key (baseCode (p2pkhScript h) [sig]) false = true := by
+  refine ⟨?_, ?_⟩
+  · by_contra hne
+    exact p2pkh_not_valid c st idx sig key h hi hlen hs2 hs hk2 hk (Or.inl hne) hv
+  · by_contra hne
+    exact p2pkh_not_valid c st idx sig key h hi hlen hs2 hs hk2 hk (Or.inr (by simpa using hne)) hv
+
+open Pycoin.Sign in
+/-- C06.tamper_fails (P2PKH; every class; every hash type — the byte `ht` the signature ends in).  Input `idx` carries
+`<sig> <key>` and spends `DUP HASH160 <h> EQUALVERIFY CHECKSIG` in both states; it validated in `s`; the bytes its signature
+commits to differ in `s'` (`Tampered`: by `C06_tampered_of_fields_legacy` / `_bip143`, a committed field differs).  Then it does
+not validate in `s'` — under exactly the two cryptographic hypotheses `hCR` (the digest function does not collide on the
+two committed byte strings) and `hUF` (the signature, valid for the digest of `p` under the key, is not valid for the digest
+of `p'`). -/
+theorem C06_tamper_fails_p2pkh (c : Coin) (s s' : State) (idx : Nat) (sig key h : Bytes) (ht : UInt8) (p p' : Bytes)
+    (hi : InputIs s idx (pushesOf [sig, key]) [] (p2pkhScript h))
+    (hi' : InputIs s' idx (pushesOf [sig, key]) [] (p2pkhScript h)) (hlen : h.length = 20)
+    (hs2 : 2 ≤ sig.length) (hs : sig.length ≤ 75) (hk2 : 2 ≤ key.length) (hk : key.length ≤ 75)
+    (hl : sig.getLast? = some ht)
+    (hvalid : isSolutionOk (stdVM c) c s idx = .ok true)
+    (hT : Tampered c s s' false (baseCode (p2pkhScript h) [sig]) idx ht.toNat p p')
+    (hCR : CollisionFree (msgHash c false) p p')
+    (hUF : NoForgery [key] sig (msgDigest c false p) (msgDigest c false p')) :
+    isSolutionOk (stdVM c) c s' idx ≠ .ok true := by
+  have hgood := (C06_valid_imp_verifies_p2pkh c s idx sig key h hi hlen hs2 hs hk2 hk hvalid).2
+  have hbad := tamper_glue c s s' idx false _ sig [key] ht hl p p' hT hCR hUF ⟨key, by simp, hgood⟩ key (by simp)
+  exact p2pkh_not_valid c s' idx sig key h hi' hlen hs2 hs hk2 hk (Or.inr hbad)
+
+open Pycoin.Sign in
+/-- C06.valid_imp_verifies (P2PK) -/
+theorem C06_valid_imp_verifies_p2pk (c : Coin) (st : State) (idx : Nat) (sig key : Bytes)
+    (hi : InputIs st idx (pushesOf [sig]) [] (p2pkScript key))
+    (hs2 : 2 ≤ sig.length) (hs : sig.length ≤ 75) (hk33 : 33 ≤ key.length) (hk : key.length ≤ 75)
+    (hv : isSolutionOk (stdVM c) c st idx = .ok true) :
+    chkOf (oracle c st idx) sig key (baseCode (p2pkScript key) [sig]) false = true := by
+  by_contra hne
+  exact p2pk_not_valid c st idx sig key hi hs2 hs hk33 hk (by simpa using hne) hv
+
+open Pycoin.Sign in
+/-- C06.tamper_fails (P2PK): `<sig>` against `<key> CHECKSIG` -/
+theorem C06_tamper_fails_p2pk (c : Coin) (s s' : State) (idx : Nat) (sig key : Bytes) (ht : UInt8) (p p' : Bytes)
+    (hi : InputIs s idx (pushesOf [sig]) [] (p2pkScript key))
+    (hi' : InputIs s' idx (pushesOf [sig]) [] (p2pkScript key))
+    (hs2 : 2 ≤ sig.length) (hs : sig.length ≤ 75) (hk33 : 33 ≤ key.length) (hk : key.length ≤ 75)
+    (hl : sig.getLast? = some ht)
+    (hvalid : isSolutionOk (stdVM c) c s idx = .ok true)
+    (hT : Tampered c s s' false (baseCode (p2pkScript key) [sig]) idx ht.toNat p p')
+    (hCR : CollisionFree (msgHash c false) p p')
+    (hUF : NoForgery [key] sig (msgDigest c false p) (msgDigest c false p')) :
+    isSolutionOk (stdVM c) c s' idx ≠ .ok true := by
+  have hgood := C06_valid_imp_verifies_p2pk c s idx sig key hi hs2 hs hk33 hk hvalid
+  have hbad := tamper_glue c s s' idx false _ sig [key] ht hl p p' hT hCR hUF ⟨key, by simp, hgood⟩ key (by simp)
+  exact p2pk_not_valid c s' idx sig key hi' hs2 hs hk33 hk hbad
+
+open Pycoin.Sign in
+/-- C06.valid_imp_verifies (P2WPKH): the script code is the implied `DUP HASH160 <h> EQUALVERIFY CHECKSIG`, the closure the
+witness one (BIP143) -/
+theorem C06_valid_imp_verifies_p2wpkh (c : Coin) (st : State) (idx : Nat) (sig key h : Bytes)
+    (hi : InputIs st idx [] [sig, key] (witnessV0Script h)) (hlen : h.length = 20)
+    (hs : sig.length ≤ 520) (hk : key.length ≤ 520)
+    (hv : isSolutionOk (stdVM c) c st idx = .ok true) :
+    Hash.hash160 key = h ∧ chkOf (oracle c st idx) sig key (p2pkhScript h) true = true := by
+  refine ⟨?_, ?_⟩
+  · by_contra hne
+    exact p2wpkh_not_valid c st idx sig key h hi hlen hs hk (Or.inl hne) hv
+  · by_contra hne
+    exact p2wpkh_not_valid c st idx sig key h hi hlen hs hk (Or.inr (by simpa using hne)) hv
+
+open Pycoin.Sign in
+/-- C06.tamper_fails (P2WPKH): empty scriptSig, witness `[sig, key]`, against `OP_0 <h>`; the committed bytes are the BIP143
+message (with the spent amount) -/
+theorem C06_tamper_fails_p2wpkh (c : Coin) (s s' : State) (idx : Nat) (sig key h : Bytes) (ht : UInt8) (p p' : Bytes)
+    (hi : InputIs s idx [] [sig, key] (witnessV0Script h))
+    (hi' : InputIs s' idx [] [sig, key] (witnessV0Script h)) (hlen : h.length = 20)
+    (hs : sig.length ≤ 520) (hk : key.length ≤ 520)
+    (hl : sig.getLast? = some ht)
+    (hvalid : isSolutionOk (stdVM c) c s idx = .ok true)
+    (hT : Tampered c s s' true (p2pkhScript h) idx ht.toNat p p')
+    (hCR : CollisionFree (msgHash c true) p p')
+    (hUF : NoForgery [key] sig (msgDigest c true p) (msgDigest c true p')) :
+    isSolutionOk (stdVM c) c s' idx ≠ .ok true := by
+  have hgood := (C06_valid_imp_verifies_p2wpkh c s idx sig key h hi hlen hs hk hvalid).2
+  have hbad := tamper_glue c s s' idx true _ sig [key] ht hl p p' hT hCR hUF ⟨key, by simp, hgood⟩ key (by simp)
+  exact p2wpkh_not_valid c s' idx sig key h hi' hlen hs hk (Or.inr hbad)
+
+open Pycoin.Sign in
+/-- C06.valid_imp_verifies (P2SH-P2WPKH) -/
+theorem C06_valid_imp_verifies_p2sh_p2wpkh (c : Coin) (st : State) (idx : Nat) (sig key h hr : Bytes)
+    (hi : InputIs st idx (pushesOf [witnessV0Script h]) [sig, key] (p2shScript hr)) (hlen : h.length = 20)
+    (hrlen : hr.length = 20) (hs : sig.length ≤ 520) (hk : key.length ≤ 520)
+    (hv : isSolutionOk (stdVM c) c st idx = .ok true) :
+    Hash.hash160 (witnessV0Script h) = hr ∧ Hash.hash160 key = h ∧
+      chkOf (oracle c st idx) sig key (p2pkhScript h) true = true := by
+  refine ⟨?_, ?_, ?_⟩
+  · by_contra hne
+    exact p2sh_p2wpkh_not_valid c st idx sig key h hr hi hlen hrlen hs hk (Or.inl hne) hv
+  · by_contra hne
+    exact p2sh_p2wpkh_not_valid c st idx sig key h hr hi hlen hrlen hs hk (Or.inr (Or.inl hne)) hv
+  · by_contra hne
+    exact p2sh_p2wpkh_not_valid c st idx sig key h hr hi hlen hrlen hs hk (Or.inr (Or.inr (by simpa using hne))) hv
+
+open Pycoin.Sign in
+/-- C06.tamper_fails (P2SH-P2WPKH): scriptSig = the push of `OP_0 <h>`, witness `[sig, key]`, against `HASH160 <hr> EQUAL` -/
+theorem C06_tamper_fails_p2sh_p2wpkh (c : Coin) (s s' : State) (idx : Nat) (sig key h hr : Bytes) (ht : UInt8) (p p' : Bytes)
+    (hi : InputIs s idx (pushesOf [witnessV0Script h]) [sig, key] (p2shScript hr))
+    (hi' : InputIs s' idx (pushesOf [witnessV0Script h]) [sig, key] (p2shScript hr)) (hlen : h.length = 20)
+    (hrlen : hr.length = 20) (hs : sig.length ≤ 520) (hk : key.length ≤ 520)
+    (hl : sig.getLast? = some ht)
+    (hvalid : isSolutionOk (stdVM c) c s idx = .ok true)
+    (hT : Tampered c s s' true (p2pkhScript h) idx ht.toNat p p')
+    (hCR : CollisionFree (msgHash c true) p p')
+    (hUF : NoForgery [key] sig (msgDigest c true p) (msgDigest c true p')) :
+    isSolutionOk (stdVM c) c s' idx ≠ .ok true := by
+  have hgood := (C06_valid_imp_verifies_p2sh_p2wpkh c s idx sig key h hr hi hlen hrlen hs hk hvalid).2.2
+  have hbad := tamper_glue c s s' idx true _ sig [key] ht hl p p' hT hCR hUF ⟨key, by simp, hgood⟩ key (by simp)
+  exact p2sh_p2wpkh_not_valid c s' idx sig key h hr hi' hlen hrlen hs hk (Or.inr (Or.inr hbad))
+
+open Pycoin.Sign in
+/-- C06.valid_imp_verifies (m-of-n multisig, bare / P2SH / P2WSH / P2SH-P2WSH): validation succeeds only if **every** signature
+of the unlocking data is accepted by the signature check for one of the listed keys -/
+theorem C06_valid_imp_verifies_multisig (c : Coin) (st : State) (idx : Nat) (w : Wrap) (m : Nat) (keys sigsTop : List Bytes)
+    (hi : InputIs st idx (w.scriptSig (multisigScriptN m keys) ([] :: sigsTop.reverse))
+      (w.wit (multisigScriptN m keys) ([] :: sigsTop.reverse)) (w.spk (multisigScriptN m keys)))
+    (ok : w.Ok (multisigScriptN m keys) F0)
+    (hm : sigsTop.length = m) (hm1 : 1 ≤ m) (hmn : m ≤ keys.length) (hn : keys.length ≤ 20)
+    (hkeys : ∀ k ∈ keys, 2 ≤ k.length ∧ k.length ≤ 75) (hsigs : ∀ sg ∈ sigsTop, 2 ≤ sg.length ∧ sg.length ≤ 75)
+    (hv : isSolutionOk (stdVM c) c st idx = .ok true) :
+    ∀ sg ∈ sigsTop, ∃ k ∈ keys, chkOf (oracle c st idx) sg k (multisigCode w m keys sigsTop) w.witness = true := by
+  intro sg hsg
+  by_contra hne
+  apply multisig_not_valid c st idx w m keys sigsTop hi ok hm hm1 hmn hn hkeys hsigs _ hv
+  refine ⟨sg, hsg, fun k hk => ?_⟩
+  cases hc : chkOf (oracle c st idx) sg k (multisigCode w m keys sigsTop) w.witness with
+  | false => rfl
+  | true => exact absurd ⟨k, hk, hc⟩ hne
+
+open Pycoin.Sign in
+/-- C06.tamper_fails (m-of-n multisig: bare, P2SH, P2WSH, P2SH-P2WSH; every `1 ≤ m ≤ n ≤ 20`).  The unlocking data carries the
+signatures `sigsTop` (each with its own hash-type byte); the input validated in `s`; for **one** of the signatures, `sg` with
+hash-type byte `ht`, the committed bytes differ in `s'`.  Then the input does not validate in `s'`: that signature verifies
+for none of the keys (`hUF`, over the whole key list), and the matching loop of `CHECKMULTISIG` gives up. -/
+theorem C06_tamper_fails_multisig (c : Coin) (s s' : State) (idx : Nat) (w : Wrap) (m : Nat) (keys sigsTop : List Bytes)
+    (sg : Bytes) (ht : UInt8) (p p' : Bytes)
+    (hi : InputIs s idx (w.scriptSig (multisigScriptN m keys) ([] :: sigsTop.reverse))
+      (w.wit (multisigScriptN m keys) ([] :: sigsTop.reverse)) (w.spk (multisigScriptN m keys)))
+    (hi' : InputIs s' idx (w.scriptSig (multisigScriptN m keys) ([] :: sigsTop.reverse))
+      (w.wit (multisigScriptN m keys) ([] :: sigsTop.reverse)) (w.spk (multisigScriptN m keys)))
+    (ok : w.Ok (multisigScriptN m keys) F0)
+    (hm : sigsTop.length = m) (hm1 : 1 ≤ m) (hmn : m ≤ keys.length) (hn : keys.length ≤ 20)
+    (hkeys : ∀ k ∈ keys, 2 ≤ k.length ∧ k.length ≤ 75) (hsigs : ∀ x ∈ sigsTop, 2 ≤ x.length ∧ x.length ≤ 75)
+    (hsg : sg ∈ sigsTop) (hl : sg.getLast? = some ht)
+    (hvalid : isSolutionOk (stdVM c) c s idx = .ok true)
+    (hT : Tampered c s s' w.witness (multisigCode w m keys sigsTop) idx ht.toNat p p')
+    (hCR : CollisionFree (msgHash c w.witness) p p')
+    (hUF : NoForgery keys sg (msgDigest c w.witness p) (msgDigest c w.witness p')) :
+    isSolutionOk (stdVM c) c s' idx ≠ .ok true := by
+  have hgood := C06_valid_imp_verifies_multisig c s idx w m keys sigsTop hi ok hm hm1 hmn hn hkeys hsigs hvalid sg hsg
+  have hbad := tamper_glue c s s' idx w.witness _ sg keys ht hl p p' hT hCR hUF hgood
+  exact multisig_not_valid c s' idx w m keys sigsTop hi' ok hm hm1 hmn hn hkeys hsigs ⟨sg, hsg, hbad⟩
+
+/-! ### "the script being satisfied": the data push of the spent script
+
+A change inside the hash push of the recorded spent script — the key hash of P2PKH / P2WPKH, the script hash of P2SH / P2WSH —
+makes the input fail whatever else the transaction says, with **no** cryptographic hypothesis: the unlocking data no longer
+hashes to the committed value (`hne` is a fact about two byte strings).  For the kinds whose key sits in the script itself
+(P2PK, bare multisig) the spent script is the script code and hence committed: `C06_tamper_fails_*` with `Tampered` through
+the script code. -/
+
+open Pycoin.Sign in
+/-- C06.spent_script_hash (P2PKH): another key hash in the spent script ⇒ `EQUALVERIFY` fails -/
+theorem C06_spent_script_hash_fails_p2pkh (c : Coin) (st : State) (idx : Nat) (sig key h' : Bytes)
+    (hi : InputIs st idx (pushesOf [sig, key]) [] (p2pkhScript h')) (hlen : h'.length = 20)
+    (hs2 : 2 ≤ sig.length) (hs : sig.length ≤ 75) (hk2 : 2 ≤ key.length) (hk : key.length ≤ 75)
+    (hne : Hash.hash160 key ≠ h') :
+    isSolutionOk (stdVM c) c st idx ≠ .ok true :=
+  p2pkh_not_valid c st idx sig key h' hi hlen hs2 hs hk2 hk (Or.inl hne)
+
+open Pycoin.Sign in
+/-- C06.spent_script_hash (P2WPKH): another program ⇒ the implied P2PKH script fails at `EQUALVERIFY` -/
+theorem C06_spent_script_hash_fails_p2wpkh (c : Coin) (st : State) (idx : Nat) (sig key h' : Bytes)
+    (hi : InputIs st idx [] [sig, key] (witnessV0Script h')) (hlen : h'.length = 20)
+    (hs : sig.length ≤ 520) (hk : key.length ≤ 520) (hne : Hash.hash160 key ≠ h') :
+    isSolutionOk (stdVM c) c st idx ≠ .ok true :=
+  p2wpkh_not_valid c st idx sig key h' hi hlen hs hk (Or.inl hne)
+
+open Pycoin.Sign in
+/-- C06.spent_script_hash (P2SH, whatever is wrapped: multisig, P2WPKH, P2WSH, …): the scriptSig is push-only data that leaves
+`redeem` on top; another script hash in the spent script ⇒ `EQUAL` pushes false, before the redeem script or the witness is
+looked at -/
+theorem C06_spent_script_hash_fails_p2sh (c : Coin) (st : State) (idx : Nat) (scriptSig redeem hr' : Bytes)
+    (stack2 witness : List Bytes)
+    (hi : InputIs st idx scriptSig witness (p2shScript hr')) (hrlen : hr'.length = 20) (hs2 : stack2.length ≤ 30)
+    (hrun : ∀ chk tx, Spec.Consensus.evalScript chk [] scriptSig F0 tx .base = .ok (redeem :: stack2))
+    (hne : Hash.hash160 redeem ≠ hr') :
+    isSolutionOk (stdVM c) c st idx ≠ .ok true := by
+  apply not_valid_of_spec' c st idx _ _ _ hi
+  intro tx
+  exact verifyScript_p2sh_mismatch _ scriptSig redeem hr' stack2 witness F0 tx (hrun _ tx) hne hrlen hs2
+
+open Pycoin.Sign in
+/-- the hypothesis `hrun` of `C06_spent_script_hash_fails_p2sh` for the scriptSig of a P2SH m-of-n multisig (or any redeem
+script of 2..520 bytes after items of 0 or 2..75 bytes) -/
+theorem C06_p2sh_scriptSig_runs (items : List Bytes) (redeem : Bytes)
+    (hall : ∀ d ∈ items, d.length = 0 ∨ (2 ≤ d.length ∧ d.length ≤ 75)) (hcount : items.length ≤ 100)
+    (h2 : 2 ≤ redeem.length) (h : redeem.length ≤ 520) :
+    ∀ chk tx, Spec.Consensus.evalScript chk [] (pushesOf items ++ Spec.Consensus.pushData redeem) F0 tx .base = .ok (redeem :: items.reverse) :=
+  fun chk tx => evalScript_pushes_pushData chk items redeem F0 tx hall hcount h2 h
+
+open Pycoin.Sign in
+/-- C06.spent_script_hash (P2WSH): another program ⇒ WITNESS_PROGRAM_MISMATCH -/
+theorem C06_spent_script_hash_fails_p2wsh (c : Coin) (st : State) (idx : Nat) (items : List Bytes) (ws prog' : Bytes)
+    (hi : InputIs st idx [] (items ++ [ws]) (witnessV0Script prog')) (hplen : prog'.length = 32)
+    (hne : Hash.sha256 ws ≠ prog') :
+    isSolutionOk (stdVM c) c st idx ≠ .ok true := by
+  apply not_valid_of_spec' c st idx _ _ _ hi
+  intro tx
+  exact verifyScript_p2wsh_mismatch _ items ws prog' F0 tx rfl hne hplen
 
 /-! ## non-vacuity (evaluated) -/
 
